@@ -182,3 +182,50 @@ pub fn record(args: &Args) {
 	}
 	println!("SUMMARY {}", json!({"events": lines.len(), "samples": lines.iter().skip(3).take(2).collect::<Vec<_>>()}));
 }
+
+/// wide values: the closed form head + unit^(n-1) + tail was validated by TLC for small n
+pub fn replay_wide(rep: &mut Report, rec: &J) {
+	rep.count("wide_vectors");
+	let n = rec["n"].as_u64().unwrap() as usize;
+	let item = build(&rec["item"]).unwrap_or_else(|e| tool_error(&e));
+	let v = if rec["kind"] == "arr" {
+		Value::Array(vec![item; n])
+	} else {
+		let k = cps_to_string(&rec["key"]).unwrap();
+		Value::Object((0..n).map(|_| json_syntax::object::Entry::new(k.as_str().into(), item.clone())).collect())
+	};
+	let o = options(&rec["o"]);
+	let part = |k: &str| cps_to_string(&rec[k]).unwrap();
+	let mut exp = part("head");
+	let unit = part("unit");
+	for _ in 1..n {
+		exp.push_str(&unit);
+	}
+	exp.push_str(&part("tail"));
+	let ctx = json!({"family": rec["name"], "n": n, "vector": rec});
+	let got = match guarded(|| v.print_with(o.clone()).to_string()) {
+		Ok(s) => s,
+		Err(p) => {
+			rep.mismatch("C13.panic", json!({"what": "printer panicked on a wide value", "input": ctx, "panic": p}));
+			return;
+		}
+	};
+	rep.count("print_calls");
+	let is_compact = o == Options::compact();
+	if got != exp {
+		let at = got.bytes().zip(exp.bytes()).position(|(a, b)| a != b).unwrap_or(got.len().min(exp.len()));
+		let d = json!({"what": "printed text of a wide value differs from the closed form validated by the specification", "input": ctx, "printed_len": got.len(), "expected_len": exp.len(),
+			"first_difference_at": at, "printed_there": got.chars().skip(at.saturating_sub(5)).take(30).collect::<String>()});
+		rep.mismatch(if is_compact { "C08.wide" } else { "C13.wide" }, d);
+	}
+	if is_compact && (v.to_string() != exp) {
+		rep.mismatch("C08.wide", json!({"what": "Display of a wide value differs from the minimal serialization", "input": ctx}));
+	}
+	match guarded(|| Value::parse_str(&got)) {
+		Ok(Ok((back, _))) if back == v => (),
+		_ => rep.mismatch("C04.wide", json!({"what": "printed wide value does not parse back to itself", "input": ctx})),
+	}
+	rep.note_distinct(hash_of(&(rec["name"].to_string(), n)));
+	rep.samples.push(json!({"family": rec["name"], "n": n}));
+	rep.samples.truncate(6);
+}
